@@ -105,19 +105,23 @@ def LineGrains.WellFormed : LineGrains R → Prop
     basis.length = comps.length ∧ sizes.length = comps.length ∧ normalize.length = comps.length ∧ deflections.length = comps.length
   | .drawn _ => True
 
+/-- every comparison of the scalar type decides one way or the other: there is no NaN.  True of every ordered field; false of IEEE doubles. -/
+def CmpTotal (R : Type) [Scalar R] : Prop := ∀ a b : R, (a < b ∨ a ≥ b) ∧ (a ≤ b ∨ a > b)
+
 /-- slab `mass conserving`: the tables the ridge search indexes fit together — the ridge data as for the oceanic models; a first
 subducting velocity exists; if the subducting velocities are given per ridge point (first row longer than 1) there is one row per ridge,
-one value per ridge point, and one `ridge_migration_times` entry (= one `spreading velocity` item) per ridge — and the spline is off
-(`interpolation::operator()` indexes its table with a value computed from the query, `m[idx]` with `idx = n` for `x ≥ n`).
-`MassConserving::parse_entries` checks the dimensions of the rows, but neither the number of migration times nor anything about the spline
-index: C12 states what follows from that. -/
+one value per ridge point, and one `ridge_migration_times` entry (= one `spreading velocity` item) per ridge: all of this is what
+`MassConserving::parse_entries` checks (after the upstream fixes) on a schema-valid document.
+The spline table itself is always indexed in range (`2·(spline_n_points+1) ≥ 2` rows, Proofs/WellFormed.lean) — except by a NaN index
+(`static_cast<int>` of it is undefined in the C++, `Err.internal` in the model), which the library can produce
+(e.g. `number of points in spline: 0` with `max distance slab top: 0`): with the spline on, the scalar type must have no NaN. -/
 def MassConserving.WellFormed (m : MassConserving R) : Prop :=
   m.ridge.WellFormed ∧
   (∃ sv0 v, m.subVel[0]? = some sv0 ∧ sv0[0]? = some v) ∧
   ((∃ sv0, m.subVel[0]? = some sv0 ∧ 1 < sv0.length) →
     m.subVel.length = m.ridge.ridges.length ∧ m.ridge.ridges.length ≤ m.migrationTimes.length ∧
     ∀ (i : Nat) (rd : List (P2 R)) (sv : List R), m.ridge.ridges[i]? = some rd → m.subVel[i]? = some sv → sv.length = rd.length) ∧
-  m.applySpline = false
+  (m.applySpline = true → CmpTotal R)
 
 /-- temperature models of a segment: only `mass conserving` indexes anything -/
 def SegTemp.WellFormed : SegTemp R → Prop
@@ -128,8 +132,13 @@ def SegTemp.WellFormed : SegTemp R → Prop
 def Segment.WellFormed (s : Segment R) : Prop :=
   (∀ m ∈ s.comps, m.WellFormed) ∧ (∀ m ∈ s.grains, m.WellFormed) ∧ (∀ m ∈ s.temps, m.WellFormed)
 
-/-- the part of `Segment.WellFormed` the parser does not establish: its `mass conserving` models are well-formed -/
-def Segment.TempsWellFormed (s : Segment R) : Prop := ∀ m ∈ s.temps, m.WellFormed
+/-- the one part of `SegTemp.WellFormed` that is not a property of the document: a `mass conserving` model with the spline on needs a
+scalar type without NaN -/
+def SegTemp.SplineCmp : SegTemp R → Prop
+  | .slab (.massConserving m) => m.applySpline = true → CmpTotal R
+  | _ => True
+
+def Segment.SplineCmp (s : Segment R) : Prop := ∀ m ∈ s.temps, m.SplineCmp
 
 /-- the Bezier curve of a line feature belongs to its coordinates: one cubic per pair of consecutive coordinates -/
 def Bezier.WellFormedFor (bz : Bezier R) (coords : List (P2 R)) : Prop :=
@@ -143,8 +152,9 @@ def LineFeature.WellFormed (f : LineFeature R) : Prop :=
     f.bezier.WellFormedFor f.coords ∧
     (∀ sec ∈ f.sections, ∀ s ∈ sec, s.WellFormed)
 
-/-- every `mass conserving` model of the slab is well-formed (`MassConserving.WellFormed`); trivially true of a slab without that model -/
-def LineFeature.TempsWellFormed (f : LineFeature R) : Prop := ∀ sec ∈ f.sections, ∀ s ∈ sec, s.TempsWellFormed
+/-- if some `mass conserving` model of the slab has the spline on, the scalar type has no NaN; trivially true of a slab without such a model
+and of every slab over an ordered field -/
+def LineFeature.SplineCmp (f : LineFeature R) : Prop := ∀ sec ∈ f.sections, ∀ s ∈ sec, s.SplineCmp
 
 /-- per feature kind; for the polygons what the indexing code needs (`IndexSafe`) — the parser does not require three corners -/
 def Feature.WellFormed : Feature R → Prop
@@ -154,11 +164,11 @@ def Feature.WellFormed : Feature R → Prop
 
 def World.WellFormed (w : World R) : Prop := ∀ f ∈ w.features, f.WellFormed
 
-/-- the `mass conserving` models of all slabs of the world are well-formed -/
-def Feature.TempsWellFormed : Feature R → Prop
-  | .line f => f.TempsWellFormed
+/-- `LineFeature.SplineCmp` for all slabs of the world -/
+def Feature.SplineCmp : Feature R → Prop
+  | .line f => f.SplineCmp
   | _ => True
 
-def World.TempsWellFormed (w : World R) : Prop := ∀ f ∈ w.features, f.TempsWellFormed
+def World.SplineCmp (w : World R) : Prop := ∀ f ∈ w.features, f.SplineCmp
 
 end Gwb
